@@ -82,6 +82,30 @@ TxDump == Len(hist) = MaxLen =>
             ndJsonSerialize("b_" \o ToString(TLCGet("stats").traces) \o ".ndjson", hist)
 
 -----------------------------------------------------------------------------
+(*  RbfGSpec: multi-round RBF histories on a non-taproot channel: optionally an injected split, then    *)
+(*            MaxRbf offers by either side, each at a fee of a small grid (bumps and drops) and with the *)
+(*            closer staying on or moving to one of 3 delivery scripts.                                  *)
+CONSTANT MaxRbf
+RbfTypes == {"legacy", "tweakless", "anchors", "zerofee"}
+RbfGInit ==
+  /\ \E t \in RbfTypes, o \in P, d \in DustPairs :
+       /\ ch = FixtureChan(t, o, d)
+       /\ hist = <<[a |-> "Cfg", p |-> o, x |-> d[1], y |-> d[2], type |-> t]>>
+  /\ tx = [p \in P |-> NoTx] /\ NegIdle
+  /\ k = 2 /\ injected \in BOOLEAN
+RbfFeeGrid(c) ==
+  LET n == Sat(ch.view[c].our) IN
+  {f \in {700, 1000, 1001, 1500, 2600, 9000, n - 1, n, n + 1, n - OwnDust(c), n - (n \div 4)} : f >= 1}
+GRbf == /\ \E c \in P, s \in 0..2 : \E f \in RbfFeeGrid(c) :
+             /\ RbfOffer(f, c, s) /\ Rec(Ev("RbfM", c, f, s))
+        /\ UNCHANGED <<negVars, k, injected>>
+RbfGNext == /\ Len(hist) < MaxRbf + 2
+            /\ IF injected /\ Len(hist) = 1 THEN GInject ELSE GRbf
+RbfGSpec == RbfGInit /\ [][RbfGNext]_gvars
+RbfDump == Len(hist) = MaxRbf + 2 =>
+             ndJsonSerialize("r_" \o ToString(TLCGet("stats").traces) \o ".ndjson", hist)
+
+-----------------------------------------------------------------------------
 Ideals == {x \in Lo..Hi : (x - Lo) % Step = 0}
 
 \* cap of the opener: 0 = default (3 x ideal), 1 = explicit and generous, 2 = explicit, below the peer's ideal (abort path)
